@@ -326,3 +326,9 @@ def area(aid, borders=None):
     from commonroad.scenario.area import Area, AreaBorder, AreaType
     bs = None if borders is None else [AreaBorder(bid, np.array(v, dtype=float), adj) for bid, v, adj in borders]
     return Area(aid, bs, {AreaType.PARKING} if hasattr(AreaType, "PARKING") else None)
+
+
+def stop_line_without_points():
+    """Stop line without start / end point (lies at the end of its lanelet), as the protobuf reader produces it."""
+    from commonroad.scenario.lanelet import LineMarking, StopLine
+    return StopLine(None, None, LineMarking.SOLID)
